@@ -188,6 +188,8 @@ def build(pp, prog, use_hook=None) -> Built:
             v = ref(a[0]) | ""
         elif op == "&":
             v = ref(a[0]) & ref(a[1])
+        elif op == "alias":         # another name for the same object
+            v = ref(a[0])
         elif op == "call":          # expr()
             v = ref(a[0])()
         elif op == "set_results_name":
